@@ -17,6 +17,7 @@ RULE = ("circuits: every sequence of <=L operations over {X(q), RY(a_q)(q) with 
         "wide registers: X on every single qubit (and two patterns, and two-outcome states) on 9 qubits in both regimes. "
         "non-trivial = state not symmetric under qubit reversal; distinct = canonical circuit")
 RULE += ' Also: a controlled RX(theta) on every ordered index tuple simulated symbolically and bound afterwards; sample counts from 999 to 100000 under scripted and real generators.'
+RULE += ' Round 5: operator objects re-used across views with a qubit-reversed expectation in between; unsimplified sums repeating a string; CNOTs between far-apart qubits on 7/9-qubit registers.'
 ASSUMPTIONS = ["gate matrices taken from the library (C02), embedding from the /verif reference (C01)", "np.random.default_rng(seed).choice is the only randomness in sampling (trapped otherwise)",
                "scripted picks are restricted to entries with p > 0 (numpy never returns a zero-probability entry)"]
 BOUNDS = {"quick": {"n": [2, 3], "L": 2, "deviations": 1, "wide_n": [9]}, "thorough": {"n": [2, 3, 4], "L": "3 (n<=3), 2 (n=4)", "deviations": 2, "wide_n": [8, 9, 10]}}
